@@ -4,7 +4,7 @@ import torch_frame
 from torch_frame.data import MultiEmbeddingTensor as MET
 from torch_frame.data import MultiNestedTensor as MNT
 
-from harness import core, ragged
+from harness import core, ragged, stress
 
 
 def part_cells(spec, ops):
@@ -32,6 +32,9 @@ def sel_only(ops):
     return [o for o in ops if o['op'] != 'val']
 
 
+DICT_KEYS = ['input_ids', 'attention_mask', 'token_type_ids']
+
+
 class C06(core.Check):
     pid = 'C06'
     driver = 'drv_ragged'
@@ -39,76 +42,201 @@ class C06(core.Check):
     thorough_cases = 120000
     rule = ('families: from(cells) round trip incl. rejected inputs; cat of a partition of the rows/columns of a container '
             '(1..5 consecutive parts, empty parts allowed, each part cut by slicing = a view); cat of parts produced by '
-            'arbitrary selection programs; cat of mismatching parts / empty list; clone; to_dense; fillna_col on a (view) '
-            'container, every column, several fill values; int and float payloads; via the class method and via '
-            'torch_frame.cat. Non-trivial = the result (or an operand) has at least one non-empty cell; distinct by case hash')
+            'arbitrary selection programs; cat of mismatching parts / empty list; clone; to_dense; fillna_col on a cloned '
+            'container or IN PLACE on a view (then every entry of the underlying root container is either untouched or '
+            'was missing and now holds the fill value), every column, several fill values incl. +-inf; payloads int64 / '
+            'int32 / float32 / float64 with sentinel look-alikes and edge magnitudes (-1.0, -0.0, +-inf, 2^24+2, '
+            'float64-only values) in 30% of the containers; via the class method and via torch_frame.cat; '
+            'dict[str, MultiNestedTensor] tensor data through torch_frame.cat with 2-3 keys whose insertion ORDER differs '
+            'from part to part; re-use family: the same part object several times in one list, the same cat issued twice '
+            'on the same part objects with the first result read again afterwards; scale family (80 / 150 / 500 cases + 6 / 16 / 30 heavy ones at '
+            'stress level 0 / 1 / 2): rows, columns, cell length, column width and NUMBER OF PARTS from the stress ladder '
+            '(<= 259 / 4 099), and heavy containers where one cat / to_dense / fillna_col / clone moves >= 16 385 / '
+            '32 769 (thorough 65 537) values, with empty cells, all-empty rows and zero-width columns. Non-trivial = the '
+            'result (or an operand) has at least one non-empty cell; distinct by case hash')
     partial_notes = ('"clone shares no storage" and the in-place nature of fillna_col are properties of the real objects: '
-                     'checked with data_ptr / snapshot comparisons, not by a theorem',)
+                     'checked with data_ptr / snapshot comparisons, not by a theorem',
+                     'the per-key dispatch of torch_frame.cat on dict tensor data is compared key by key with the model of '
+                     'MultiNestedTensor.cat (the dict layer itself is modelled in Model/Frame.lean, property C08)')
+    N_SCALE = {0: 80, 1: 150, 2: 500}
+    N_HEAVY = {0: 6, 1: 16, 2: 30}
+    N_HUGE = {0: 0, 1: 0, 2: 4}      # 16 385 .. 65 539 rows: judged by the direct oracle only
 
     # ---------------------------------------------------------------- generation
     def generate(self, rng, n, tier):
-        for _ in range(n):
+        lv = self.level
+        n_heavy, n_scale = min(self.N_HEAVY[lv], n // 4), min(self.N_SCALE[lv], n // 2)
+        for i in range(n):
             kind = rng.choice(['mnt', 'met'])
-            payload = rng.choice(['int', 'float'])
+            payload = rng.choice(['int', 'float', 'int', 'float', 'int32', 'float64'])
+            if i < self.N_HUGE[lv]:
+                spec = ragged.gen_cells_scaled(rng, kind, lv, payload, 'tall',
+                                               R=rng.choice(stress.LADDER_BIG) + rng.choice([0, 1, 2]))
+                case = self.gen_family(rng, rng.choice(['partition', 'fillna', 'clone']), spec, payload, big=True)
+                case.update(scaled='huge', oracle_only=True)
+                if case['fam'] == 'partition':
+                    case['dim'], case['pre'] = 0, []
+                    k = rng.choice([2, 5, 1025])
+                    case['bounds'] = [0] + sorted(rng.randint(0, spec['R']) for _ in range(k - 1)) + [spec['R']]
+                    case['how'] = 'slice'
+                yield case
+                continue
+            if i < n_heavy:
+                yield self.gen_heavy(rng, payload)
+                continue
+            if i < n_heavy + n_scale:
+                yield self.gen_scaled(rng, kind, payload)
+                continue
             fam = rng.choice(['from', 'partition', 'partition', 'partition', 'selparts', 'selparts', 'mismatch',
-                              'clone', 'dense', 'fillna', 'fillna'])
+                              'clone', 'dense', 'fillna', 'fillna', 'dictcat'])
             if fam == 'from':
-                spec = ragged.gen_cells(rng, kind, rng.choice([0, 1, 2, 3, 4]), rng.choice([0, 1, 2, 3]))
+                spec = ragged.gen_cells(rng, kind, rng.choice([0, 1, 2, 3, 4]), rng.choice([0, 1, 2, 3]), payload)
+                spec.pop('storage', None)
                 bad = rng.random() < .15
                 if bad and kind == 'mnt' and spec['R'] >= 2 and spec['C'] >= 1:
                     spec['cells'][rng.randrange(1, spec['R'])].pop()          # ragged row length
                     spec['bad'] = 'row-length'
                 yield {'fam': 'from', 'spec': spec, 'payload': payload}
                 continue
-            spec = ragged.gen_cells(rng, kind)
-            if fam == 'partition':
-                dim = rng.choice([0, 1])
-                pre = sel_only(ragged.gen_ops(rng, spec['R'], spec['C'], 2, allow_bad=False)) if rng.random() < .3 else []
-                pc = part_cells(spec, pre)
-                if pc is None:
-                    pre, pc = [], (spec['cells'], spec['C'])
-                size = len(pc[0]) if dim == 0 else pc[1]
-                k = rng.randint(1, 5)
-                cuts = sorted(rng.randint(0, size) for _ in range(k - 1))
-                bounds = [0] + cuts + [size]
-                yield {'fam': 'partition', 'spec': spec, 'payload': payload, 'dim': dim, 'bounds': bounds, 'pre': pre,
-                       'via': rng.choice(['class', 'tf']), 'how': rng.choice(['slice', 'list'])}
-            elif fam == 'selparts':
-                dim = rng.choice([0, 1])
-                k = rng.randint(1, 4)
-                parts = []
-                for _ in range(k):
-                    ops = sel_only(ragged.gen_ops(rng, spec['R'], spec['C'], 3, allow_bad=False))
-                    # restrict to selections along `dim` so the other axis usually matches
-                    ops = [o for o in ops if o['op'] == 'sel' and o['dim'] == dim]
-                    parts.append(ops)
-                yield {'fam': 'selparts', 'spec': spec, 'payload': payload, 'dim': dim, 'parts': parts,
-                       'via': rng.choice(['class', 'tf'])}
-            elif fam == 'mismatch':
-                dim = rng.choice([0, 1])
-                k = rng.choice([0, 2, 3])
-                parts = [sel_only(ragged.gen_ops(rng, spec['R'], spec['C'], 2, allow_bad=False)) for _ in range(k)]
-                yield {'fam': 'selparts', 'spec': spec, 'payload': payload, 'dim': dim, 'parts': parts,
-                       'via': rng.choice(['class', 'tf'])}
-            elif fam == 'clone':
-                yield {'fam': 'clone', 'spec': spec, 'payload': payload,
-                       'pre': sel_only(ragged.gen_ops(rng, spec['R'], spec['C'], 3, allow_bad=False))}
-            elif fam == 'dense':
-                spec = ragged.gen_cells(rng, 'mnt')
-                yield {'fam': 'dense', 'spec': spec, 'payload': payload, 'fill': rng.choice([-1, 0, 7, -5]),
-                       'pre': sel_only(ragged.gen_ops(rng, spec['R'], spec['C'], 2, allow_bad=False)) if rng.random() < .5 else []}
+            if fam == 'dictcat':
+                yield self.gen_dictcat(rng, payload)
+                continue
+            spec = ragged.gen_cells(rng, 'mnt' if fam == 'dense' else kind, payload=payload)
+            yield self.gen_family(rng, fam, spec, payload)
+
+    def gen_family(self, rng, fam, spec, payload, big=False):
+        lv = self.level
+        draw = lambda nmax: ragged.gen_ops(rng, spec['R'], spec['C'], nmax, allow_bad=False, level=lv, big=big)
+        if big:     # large containers: no step may multiply the values beyond what the model driver can take
+            ops_ = lambda nmax: sel_only(ragged.fit_program(lambda: draw(nmax), spec['cells'], spec['C'], ragged.BUDGET[lv]))
+        else:
+            ops_ = lambda nmax: sel_only(draw(nmax))
+        if fam == 'partition':
+            dim = rng.choice([0, 1])
+            many = big and rng.random() < .5        # number of parts from the ladder (then no common pre-selection)
+            pre = ops_(2) if rng.random() < .3 and not many else []
+            pc = part_cells(spec, pre)
+            if pc is None:
+                pre, pc = [], (spec['cells'], spec['C'])
+            size = len(pc[0]) if dim == 0 else pc[1]
+            k = rng.randint(1, 5)
+            if big:
+                # many parts along the LARGE axis (a part of the other axis spans the whole large axis)
+                k = stress.pick_size(rng, lv, 4099) if many else rng.randint(2, 9)
+                k = min(k, size + 3)
+            cuts = sorted(rng.randint(0, size) for _ in range(k - 1))
+            bounds = [0] + cuts + [size]
+            return {'fam': 'partition', 'spec': spec, 'payload': payload, 'dim': dim, 'bounds': bounds, 'pre': pre,
+                    'via': rng.choice(['class', 'tf']), 'how': rng.choice(['slice', 'list']) if k <= 64 else 'slice',
+                    'again': rng.random() < .4}
+        if fam == 'selparts':
+            dim = rng.choice([0, 1])
+            k = rng.randint(1, 4)
+            parts = []
+            for _ in range(k):
+                # restrict to selections along `dim` so the other axis usually matches
+                parts.append([o for o in ops_(3) if o['op'] == 'sel' and o['dim'] == dim])
+            case = {'fam': 'selparts', 'spec': spec, 'payload': payload, 'dim': dim, 'parts': parts,
+                    'via': rng.choice(['class', 'tf']), 'again': rng.random() < .4}
+            if rng.random() < .3:
+                # the same part OBJECT occurs several times in the list
+                case['dup'] = [rng.randrange(k) for _ in range(rng.randint(1, 3))]
+            return case
+        if fam == 'mismatch':
+            dim = rng.choice([0, 1])
+            k = rng.choice([0, 2, 3])
+            parts = [ops_(2) for _ in range(k)]
+            return {'fam': 'selparts', 'spec': spec, 'payload': payload, 'dim': dim, 'parts': parts,
+                    'via': rng.choice(['class', 'tf'])}
+        if fam == 'clone':
+            return {'fam': 'clone', 'spec': spec, 'payload': payload, 'pre': ops_(3)}
+        if fam == 'dense':
+            fills = [-1, 0, 7, -5] + ([c for c in ragged.special_codes(payload) if c >= ragged.SPECIAL_BASE][:4]
+                                       if not ragged.is_int(payload) else [2 ** 24 + 1])
+            return {'fam': 'dense', 'spec': spec, 'payload': payload, 'fill': rng.choice(fills),
+                    'pre': ops_(2) if rng.random() < .5 else []}
+        pre = ops_(2) if rng.random() < .5 else []
+        pc = part_cells(spec, pre)
+        if pc is None:
+            pre, pc = [], (spec['cells'], spec['C'])
+        col = rng.randrange(pc[1]) if pc[1] > 0 else None
+        fills = [0, 3, 8, 11, 11] + [c for c in ragged.special_codes(payload) if c != -2][:6]
+        return {'fam': 'fillna', 'spec': spec, 'payload': payload, 'pre': pre, 'col': col,
+                'fill': rng.choice(fills), 'inplace': rng.random() < .5}
+
+    def gen_scaled(self, rng, kind, payload):
+        fam = rng.choice(['from', 'partition', 'partition', 'partition', 'selparts', 'clone', 'dense', 'fillna', 'fillna'])
+        if fam == 'dense':
+            kind = 'mnt'
+        shape = rng.choice([s for s in ragged.SHAPES[kind] if s != 'heavy'])
+        spec = ragged.gen_cells_scaled(rng, kind, self.level, payload, shape)
+        if fam == 'from':
+            spec.pop('storage', None)
+            if spec['R'] * spec['C'] > 6000:
+                fam = 'clone'
             else:
-                pre = sel_only(ragged.gen_ops(rng, spec['R'], spec['C'], 2, allow_bad=False)) if rng.random() < .5 else []
-                pc = part_cells(spec, pre)
-                if pc is None:
-                    pre, pc = [], (spec['cells'], spec['C'])
-                col = rng.randrange(pc[1]) if pc[1] > 0 else None
-                yield {'fam': 'fillna', 'spec': spec, 'payload': payload, 'pre': pre, 'col': col,
-                       'fill': rng.choice([0, 3, 8, 11])}
+                return {'fam': 'from', 'spec': spec, 'payload': payload, 'scaled': shape}
+        case = self.gen_family(rng, fam, spec, payload, big=True)
+        case['scaled'] = shape
+        return case
+
+    def gen_heavy(self, rng, payload):
+        """one operation moves >= 16 385 values: cat(dim=1) of the column partition of a heavy MultiNestedTensor (the
+        scatter of every part runs over the part's values), cat(dim=0), to_dense, fillna_col of the heavy column, clone;
+        for the embedding container cat along either axis and fillna_col of a wide column"""
+        fam = rng.choice(['partition', 'partition', 'dense', 'fillna', 'fillna', 'clone'])
+        kind = 'mnt' if fam == 'dense' or rng.random() < .7 else 'met'
+        spec = ragged.gen_cells_scaled(rng, kind, self.level, payload, 'heavy')
+        case = self.gen_family(rng, fam, spec, payload, big=True)
+        case['scaled'] = 'heavy'
+        if fam == 'partition':
+            case['pre'] = []
+            size = spec['R'] if case['dim'] == 0 else spec['C']
+            k = rng.randint(2, 5)
+            case['bounds'] = [0] + sorted(rng.randint(0, size) for _ in range(k - 1)) + [size]
+            case['how'] = 'slice'
+        elif fam == 'fillna':
+            case['pre'] = []
+            widest = max(range(spec['C']), key=lambda c: sum(len(row[c]) for row in spec['cells']) if kind == 'mnt'
+                         else spec['widths'][c])
+            case['col'] = widest if rng.random() < .8 else rng.randrange(spec['C'])
+        elif fam in ('clone', 'dense'):
+            case['pre'] = []
+        return case
+
+    def gen_dictcat(self, rng, payload):
+        """dict[str, MultiNestedTensor] tensor data: every part is a dict with the same keys, built in its own
+        insertion order; the parts are the row / column partition of one base dict or selection results of it"""
+        payload = payload if ragged.is_int(payload) or rng.random() < .3 else 'int'
+        keys = DICT_KEYS[:rng.choice([2, 2, 3])]
+        R, C = rng.choice([0, 1, 2, 3, 4, 5]), rng.choice([1, 1, 2, 3])
+        specs = {k: ragged.gen_cells(rng, 'mnt', R, C, payload) for k in keys}
+        dim = rng.choice([0, 0, 1])
+        size = R if dim == 0 else C
+        parts = []
+        if rng.random() < .7:
+            mode = 'partition'
+            k = rng.randint(1, 4)
+            bounds = [0] + sorted(rng.randint(0, size) for _ in range(k - 1)) + [size]
+            for a, b in zip(bounds, bounds[1:]):
+                parts.append({'ops': [{'op': 'sel', 'ix': {'t': 'slice', 'a': a, 'b': b, 's': None}, 'dim': dim,
+                                       'via': 'select'}]})
+        else:
+            mode = 'selections'
+            for _ in range(rng.randint(1, 3)):
+                ops = sel_only(ragged.gen_ops(rng, R, C, 2, allow_bad=False))
+                parts.append({'ops': [o for o in ops if o['op'] == 'sel' and o['dim'] == dim]})
+        for p in parts:
+            order = list(keys)
+            if rng.random() < .6:
+                rng.shuffle(order)
+            p['order'] = order
+        return {'fam': 'dictcat', 'spec': specs[keys[0]], 'specs': specs, 'keys': keys, 'payload': payload, 'dim': dim,
+                'parts': parts, 'mode': mode}
 
     # ---------------------------------------------------------------- real side
-    def _part(self, spec, payload, ops):
-        outs, cur, findings = ragged.run_real_program(spec, payload, ops)
+    def _part(self, spec, payload, ops, root_out=None):
+        outs, cur, findings = ragged.run_real_program(spec, payload, ops, root_out)
         return cur
 
     def _cat(self, parts, dim, via, kind):
@@ -116,8 +244,24 @@ class C06(core.Check):
             return torch_frame.cat(parts, dim=dim)
         return (MNT if kind == 'mnt' else MET).cat(parts, dim=dim)
 
+    def _key(self, case):
+        if getattr(self, '_last', (None, None))[0] is not case:
+            self._last = (case, core.stable_hash(case))
+        return self._last[1]
+
     def real(self, case):
+        """the direct oracle's finding is produced while the real code runs; it is remembered per case so that
+        `oracle(case, outcome)` is a function of the case (the engine calls it again when it builds the verdict)"""
         self._v = None
+        try:
+            out = self._real(case)
+        except Exception as e:     # a library that hands back unreadable objects must yield a finding, not a crash
+            out = f'unreadable:{type(e).__name__}'
+            self._v = (case['fam'], 'the operation or reading its result raises unexpectedly', None, out)
+        self.__dict__.setdefault('_vcache', {})[self._key(case)] = self._v
+        return out
+
+    def _real(self, case):
         spec, payload, kind = case['spec'], case['payload'], case['spec']['kind']
         dt = ragged.dtype_of(payload)
         fam = case['fam']
@@ -155,6 +299,7 @@ class C06(core.Check):
                 parts = [self._part(spec, payload, ops) for ops in case['parts']]
                 if any(p is None for p in parts):
                     return 'part-raises'
+                parts += [parts[j] for j in case.get('dup', [])]      # the same objects again
             before = [ragged.real_repr(p, payload) for p in parts]
             try:
                 res = self._cat(parts, dim, case['via'], kind)
@@ -162,6 +307,16 @@ class C06(core.Check):
                 out = {'ok': rep}
             except Exception:
                 res, out = None, 'raises'
+            if case.get('again') and res is not None:
+                # the same cat on the same part objects once more: same result, and the first result is still intact
+                try:
+                    rep2 = ragged.real_repr(self._cat(parts, dim, case['via'], kind), payload)
+                except Exception:
+                    rep2 = 'raises'
+                if rep2 != rep:
+                    self._v = ('cat', 'a second concatenation of the same parts gives another result', rep, rep2)
+                elif ragged.real_repr(res, payload) != rep:
+                    self._v = ('cat', 'a later concatenation changed an earlier result', rep, None)
             # ---- direct oracle: nested lists
             pcs = [ragged.cells_of_repr(b, kind) for b in before]
             other = [(b['C'] if dim == 0 else b['R']) for b in before]
@@ -192,7 +347,10 @@ class C06(core.Check):
             if [ragged.real_repr(p, payload) for p in parts] != before:
                 self._v = ('cat', 'concatenation modified a part', None, None)
             return out
-        base = self._part(spec, payload, case.get('pre', []))
+        if fam == 'dictcat':
+            return self.real_dictcat(case)
+        roots = []
+        base = self._part(spec, payload, case.get('pre', []), roots)
         if base is None:
             return 'part-raises'
         brep = ragged.real_repr(base, payload)
@@ -206,7 +364,7 @@ class C06(core.Check):
                 self._v = ('clone', 'clone shares storage with the original', None, None)
             return {'ok': crep}
         if fam == 'dense':
-            fill = ragged.enc(case['fill'], payload) if payload == 'int' else case['fill'] * 0.5
+            fill = ragged.enc(case['fill'], payload)
             try:
                 d = base.to_dense(fill_value=fill)
                 got = [[[ragged.dec(x, payload) for x in cell] for cell in row] for row in d.tolist()]
@@ -229,7 +387,9 @@ class C06(core.Check):
         if case['col'] is None:
             return 'no-column'
         col = case['col']
-        work = base.clone()
+        inplace = case.get('inplace', False)
+        work = base if inplace else base.clone()
+        root_before = ragged.real_repr(roots[0], payload)
         fill = ragged.enc(case['fill'], payload)
         work.fillna_col(col, fill)
         wrep = ragged.real_repr(work, payload)
@@ -239,17 +399,76 @@ class C06(core.Check):
         if not ragged.well_formed(wrep, kind) or ragged.cells_of_repr(wrep, kind) != exp:
             self._v = ('fillna', 'fillna_col changed something other than the missing entries of the column',
                        exp, wrep)
+        else:
+            # the container the (view) operand was selected from: an entry is untouched, or it was missing and now
+            # holds the fill value (in place on a view); untouched altogether when a clone was filled
+            root_after = ragged.real_repr(roots[0], payload)
+            flat = lambda rep: rep['values'] if kind == 'mnt' else [v for row in rep['values'] for v in row]
+            if root_after['offset'] != root_before['offset'] or len(flat(root_after)) != len(flat(root_before)) or any(
+                    b != a and not (inplace and a == ragged.MISSING and b == case['fill'])
+                    for a, b in zip(flat(root_before), flat(root_after))):
+                self._v = ('fillna', 'fillna_col changed entries of the underlying container that were not missing',
+                           None, None)
         return {'ok': wrep, 'col': col}
 
+    def real_dictcat(self, case):
+        payload, dim, keys = case['payload'], case['dim'], case['keys']
+        parts, refs = [], []
+        for p in case['parts']:
+            d, r = {}, {}
+            for k in p['order']:
+                m = self._part(case['specs'][k], payload, p['ops'])
+                if m is None:
+                    return 'part-raises'
+                d[k] = m
+                r[k] = ragged.real_repr(m, payload)
+            parts.append(d)
+            refs.append(r)
+        try:
+            res = torch_frame.cat(parts, dim=dim)
+            out = {'ok': {k: ragged.real_repr(res[k], payload) for k in sorted(res)}}
+        except Exception:
+            res, out = None, 'raises'
+        other = [(r[keys[0]]['C'] if dim == 0 else r[keys[0]]['R']) for r in refs]
+        if len(set(other)) > 1:
+            if res is not None:
+                self._v = ('dictcat', 'mismatching parts accepted', 'raises', None)
+        elif res is None:
+            self._v = ('dictcat', 'concatenation of compatible dict parts raises', None, 'raises')
+        elif sorted(res) != sorted(keys):
+            self._v = ('dictcat', 'keys of the result differ from the keys of the parts', keys, sorted(res))
+        else:
+            for k in keys:
+                pcs = [ragged.cells_of_repr(r[k], 'mnt') for r in refs]
+                exp = [row for pc in pcs for row in pc] if dim == 0 else \
+                    [[c for pc in pcs for c in pc[i]] for i in range(refs[0][k]['R'])]
+                rep = out['ok'][k]
+                if not ragged.well_formed(rep, 'mnt') or ragged.cells_of_repr(rep, 'mnt') != exp:
+                    self._v = ('dictcat', 'cells under a key differ from the cells of the parts under that key (by name), in order',
+                               {'key': k, 'cells': exp}, rep)
+                    break
+                if case['mode'] == 'partition' and ragged.cells_of_repr(rep, 'mnt') != case['specs'][k]['cells']:
+                    self._v = ('dictcat', 'splitting and concatenating a dict of containers does not restore it', None, rep)
+                    break
+        if [{k: ragged.real_repr(d[k], payload) for k in d} for d in parts] != refs:
+            self._v = ('dictcat', 'concatenation modified a part', None, None)
+        return out
+
     def oracle(self, case, real_outcome):
-        if self._v:
-            fam, what, exp, got = self._v
+        h = self._key(case)
+        if h not in self.__dict__.setdefault('_vcache', {}):
+            self.real(case)
+        v = self._vcache[h]
+        if v:
+            fam, what, exp, got = v
             return core.Violation(f"{case['spec']['kind']}/{fam}/{what}", f"{case['spec']['kind']} {fam}: {what}",
                                   case, exp, got)
         return None
 
     # ---------------------------------------------------------------- model side
     def model_requests(self, case):
+        if case.get('oracle_only'):
+            return []
         spec, kind = case['spec'], case['spec']['kind']
         fam = case['fam']
         base = ragged.canonical_repr(spec) if not spec.get('bad') else None
@@ -260,14 +479,20 @@ class C06(core.Check):
             return [{'cmd': 'from', 'kind': 'met', 'cols': cols, 'widths': spec['widths']}]
         if fam == 'partition':
             parts = []
+            pre = model_ops(case['pre'])
             for a, b in zip(case['bounds'], case['bounds'][1:]):
                 ix = {'t': 'slice', 'a': a, 'b': b, 's': None} if case['how'] == 'slice' else \
                     {'t': 'list', 'is': list(range(a, b))}
-                parts.append({'base': base, 'ops': model_ops(case['pre']) + [{'op': 'sel', 'ix': ix, 'dim': case['dim']}]})
-            return [{'cmd': 'cat', 'kind': kind, 'dim': case['dim'], 'parts': parts}]
+                parts.append({'ops': pre + [{'op': 'sel', 'ix': ix, 'dim': case['dim']}]})
+            return [{'cmd': 'cat', 'kind': kind, 'dim': case['dim'], 'base': base, 'parts': parts}]
         if fam == 'selparts':
-            return [{'cmd': 'cat', 'kind': kind, 'dim': case['dim'],
-                     'parts': [{'base': base, 'ops': model_ops(ops)} for ops in case['parts']]}]
+            parts = [{'ops': model_ops(ops)} for ops in case['parts']]
+            parts += [parts[j] for j in case.get('dup', [])]
+            return [{'cmd': 'cat', 'kind': kind, 'dim': case['dim'], 'base': base, 'parts': parts}]
+        if fam == 'dictcat':
+            # key by key (by NAME): the parts' containers under that key, in the order of the parts
+            return [{'cmd': 'cat', 'kind': 'mnt', 'dim': case['dim'], 'base': ragged.canonical_repr(case['specs'][k]),
+                     'parts': [{'ops': model_ops(p['ops'])} for p in case['parts']]} for k in sorted(case['keys'])]
         if fam == 'clone':
             return [{'cmd': 'prog', 'kind': kind, 'base': base, 'ops': model_ops(case['pre'])}]
         if fam == 'dense':
@@ -278,12 +503,20 @@ class C06(core.Check):
                  'fill': case['fill'], 'missing': ragged.MISSING}]
 
     def model_outcome(self, case, replies):
+        if case.get('oracle_only'):
+            return core.SKIP_MODEL
         fam = case['fam']
         if fam == 'fillna':
             if case['col'] is None:
                 return 'no-column'
             r = replies[0]
             return r if isinstance(r, str) else {'ok': r['ok'], 'col': case['col']}
+        if fam == 'dictcat':
+            if any(r == 'part-raises' for r in replies):
+                return 'part-raises'
+            if any(r == 'raises' for r in replies):
+                return 'raises'
+            return {'ok': {k: r['ok'] for k, r in zip(sorted(case['keys']), replies)}}
         r = replies[0]
         if fam in ('from', 'partition', 'selparts', 'dense'):
             return r
@@ -301,6 +534,8 @@ class C06(core.Check):
     def nontrivial_key(self, case, out):
         if isinstance(out, dict):
             rep = out['ok']
+            if case['fam'] == 'dictcat':
+                return core.stable_hash(case) if any(r.get('values') for r in rep.values()) else None
             if isinstance(rep, dict) and rep.get('values') and rep['values'] != 'bad-ndim':
                 return core.stable_hash(case)
             if isinstance(rep, list) and rep:
@@ -308,11 +543,41 @@ class C06(core.Check):
         return None
 
     def classify(self, case, out):
-        labs = [f"fam:{case['fam']}", f"kind:{case['spec']['kind']}", f"payload:{case['payload']}"]
+        spec = case['spec']
+        labs = [f"fam:{case['fam']}", f"kind:{spec['kind']}", f"payload:{case['payload']}"]
         res = out if isinstance(out, str) else 'ok'
         labs.append(f"{case['fam']}:{res}")
+        if spec.get('special'):
+            labs.append('values:special-pool')
+        if spec.get('storage'):
+            labs.append('storage:strided-views')
+        if case.get('scaled'):
+            labs.append(f"scale:{case['scaled']}:{case['fam']}")
+            nv = ragged.n_values(spec)
+            if nv >= 16385:
+                labs.append('scale:values>=32769' if nv >= 32769 else 'scale:values>=16385')
+            if spec['R'] >= 257:
+                labs.append('scale:rows>=257' if spec['R'] < 16385 else 'scale:rows>=16385(oracle-only)')
+            if spec['C'] >= 257:
+                labs.append('scale:cols>=257')
         if case['fam'] in ('partition', 'selparts'):
-            labs.append(f"cat:dim{case['dim']}:parts{len(case.get('bounds', [0])) - 1 if case['fam'] == 'partition' else len(case['parts'])}:{case['via']}")
+            k = len(case.get('bounds', [0])) - 1 if case['fam'] == 'partition' else len(case['parts']) + len(case.get('dup', []))
+            kk = k if k <= 5 else '6..16' if k <= 16 else '17..256' if k <= 256 else '257+'
+            labs.append(f"cat:dim{case['dim']}:parts{kk}:{case['via']}")
+            if k >= 17:
+                labs.append('scale:parts>=17' if k < 257 else 'scale:parts>=257')
+            if case.get('again'):
+                labs.append('reuse:same-cat-twice')
+            if case.get('dup'):
+                labs.append('reuse:same-part-object-repeated')
+        if case['fam'] == 'dictcat':
+            orders = {tuple(p['order']) for p in case['parts']}
+            labs.append(f"dictcat:dim{case['dim']}:{case['mode']}:parts{len(case['parts'])}:"
+                        f"{'key-orders-differ' if len(orders) > 1 else 'one-key-order'}")
+        if case['fam'] == 'fillna':
+            labs.append('fillna:in-place-on-view' if case.get('inplace') else 'fillna:on-clone')
+            if case['fill'] >= ragged.SPECIAL_BASE or case['fill'] < 0:
+                labs.append('fillna:special-fill-value')
         return labs
 
 
